@@ -29,9 +29,9 @@ static inline size_t akey_size(void) { return AHEAD + (size_t) KFS; }
 static inline void apack(uint8_t *dst, const app *a) { memcpy(dst, a, AHEAD); memcpy(dst + AHEAD, a->st, (size_t) KFS); }
 static inline void aunpack(app *a, const uint8_t *src) { memset(a, 0, sizeof *a); memcpy(a, src, AHEAD); memcpy(a->st, src + AHEAD, (size_t) KFS); }
 
-enum { S_NEXT, S_INTO_OBJ, S_INTO_ARR, S_LEAVE_OBJ, S_LEAVE_ARR, S_RAW, S_FIELD_A, S_FIELD_B, S_FIELD_E, S_FIELD_AB, S_NOPS };
+enum { S_NEXT, S_INTO_OBJ, S_INTO_ARR, S_LEAVE_OBJ, S_LEAVE_ARR, S_RAW, S_FIELD_A, S_FIELD_B, S_FIELD_E, S_FIELD_AB, S_RESET, S_NOPS };
 static const char *const opname[S_NOPS] = { "next", "go_into_object", "go_into_array", "leave_object", "leave_array", "get_raw", "field(\"a\")", "field(\"b\")",
-                                            "field(\"\")", "field(\"ab\")" };
+                                            "field(\"\")", "field(\"ab\")", "reset" };
 
 static vf_live L;
 static int MD, KIND;
@@ -77,6 +77,7 @@ static bool enabled(const app *a, int op)
     case S_LEAVE_OBJ: return top == 'O';
     case S_LEAVE_ARR: return top == 'A';
     case S_RAW: return a->sp > 0 && (a->last == 'O' || a->last == 'A');
+    case S_RESET: return a->sp > 0;     /* abandon the traversal and start over: the restarted one must be judged like a first one */
     default: return top == 'O';
     }
 }
@@ -98,8 +99,10 @@ static int step(app *a, int op)
         if (r) { a->sp--; a->st[a->sp] = 0; if (a->sp == 0) a->done = 1; }
         return r;
     case S_RAW: r = binson_parser_get_raw(p, &raw); a->last = 0; return r;
+    case S_RESET: r = binson_parser_reset(p); memset(a, 0, sizeof *a); return r;
     default: {
         static const char *const q[] = { "a", "b", "", "ab" };
+        if (op < S_FIELD_A || op > S_FIELD_AB) vf_die("bad op");
         r = binson_parser_field(p, q[op - S_FIELD_A]);
         a->last = 0;
         if (r) { binson_type t = binson_parser_get_type(p); a->last = t == BINSON_TYPE_OBJECT ? 'O' : t == BINSON_TYPE_ARRAY ? 'A' : 'v'; }
@@ -204,7 +207,7 @@ static void explore_config(void)
             cur_state = s;
             int ok = step(&a, op);
             vf_count(CT_TRANS, 1);
-            if (op >= S_FIELD_A) vf_count(CT_LOOKUPS, 1);
+            if (op >= S_FIELD_A && op <= S_FIELD_AB) vf_count(CT_LOOKUPS, 1);
             if (op == S_RAW) vf_count(CT_RAW, 1);
             if (!ok) {
                 if (V) {
@@ -453,7 +456,7 @@ int main(int argc, char **argv)
              "inputs: every framed sequence of <= %d tokens over the %d-token hostile alphabet (max_depth 1,2,3) and of <= %d tokens over the %d-token core "
              "alphabet (max_depth 2), object- and array-framed; every valid document with <= %d value tokens over names {a, b, a 128-byte name} and ALL its one-deviation mutants (interior bytes of the long name thinned out) under both init "
              "kinds; towers at and one past max_depth 1..3; 100..256 nested arrays; documents of <= 2 values over {int, 32768-byte string, 32768-byte bytes, containers} with their mutants. Per input: fixpoint over ALL adaptive strategies built from next, 4 lookups, enter on a reported "
-             "container, get_raw on a reported container, leave of the innermost entered container",
+             "container, get_raw on a reported container, leave of the innermost entered container, reset (restart) from anywhere",
              L_HOSTILE, VF_NTOK_HOSTILE, L_CORE, VF_NTOK_CORE, N_DOC);
     static const char *const assumptions[] = {
         "the application follows the protocol: it enters / extracts only a container the parser has just reported (or the root), leaves only what it entered, looks fields up only inside objects",
